@@ -2,5 +2,5 @@
 EXTENDS LangGen
 MCP == [names |-> {"x", "y"}, funs |-> {"f"}, arity |-> [f \in {"f"} |-> 0], ty |-> "num",
         kinds |-> {"make", "set", "shout", "call", "block", "def", "ret", "empty"},
-        ops |-> {}, maxStmts |-> atoi(IOEnv.MAXSTMTS), minStmts |-> 1, maxDepth |-> atoi(IOEnv.MAXDEPTH), fuel |-> 400, events |-> atoi(IOEnv.EVENTS)]
+        prelude |-> <<>>, preDecl |-> {}, ops |-> {}, maxStmts |-> atoi(IOEnv.MAXSTMTS), minStmts |-> 1, maxDepth |-> atoi(IOEnv.MAXDEPTH), fuel |-> 400, events |-> atoi(IOEnv.EVENTS)]
 ====
